@@ -11,6 +11,7 @@ import FastQr.Props.C09
 import FastQr.Props.C10
 import FastQr.Props.C11
 import FastQr.Props.C12
+import FastQr.Props.C14
 import FastQr.Props.C15
 import FastQr.Props.C16
 import FastQr.Props.C17
